@@ -77,6 +77,12 @@ fn check<'a, T: DiffableStr + ?Sized>(d: &'a TextDiff<'a, 'a, 'a, T>, dl: Dl, fa
                     }
                 }
             }
+            // the lossy-string view of the same segments
+            let lossy: Vec<(bool, String)> = ic.iter_strings_lossy().map(|(e, s)| (e, s.into_owned())).collect();
+            let want: Vec<(bool, String)> = ic.values().iter().map(|(e, seg)| (*e, String::from_utf8_lossy(seg.as_bytes()).into_owned())).collect();
+            if lossy != want {
+                fails.push(("inline.strings_lossy_differ", format!("op #{} change #{}: iter_strings_lossy() yields {:?} but values() are {:?}", oi, k, lossy, want)));
+            }
             if joined != pc.3 {
                 fails.push((
                     "inline.segments_do_not_rebuild_line",
